@@ -54,6 +54,17 @@ func idents(n ast.Node, prefix string) []string {
 	return out
 }
 
+func identsAll(n ast.Node) []string {
+	var out []string
+	ast.Inspect(n, func(x ast.Node) bool {
+		if id, ok := x.(*ast.Ident); ok {
+			out = append(out, id.Name)
+		}
+		return true
+	})
+	return out
+}
+
 func assigned(n ast.Node) []string {
 	set := map[string]bool{}
 	ast.Inspect(n, func(x ast.Node) bool {
@@ -168,17 +179,23 @@ func chainFacts(f *ast.File, fname, defname string, consts map[string]string, ou
 						logicArgs = c.Args[:len(c.Args)-1]
 						fail = failFact(c.Args[len(c.Args)-1], consts)
 					}
-					var tag, lits, writes []string
+					var tag, lits, writes, cs []string
 					for _, a := range logicArgs {
 						tag = append(tag, callees(a)...)
 						writes = append(writes, assigned(a)...)
+						for _, id := range identsAll(a) {
+							if _, ok := consts[id]; ok && !contains(cs, id) {
+								cs = append(cs, id)
+							}
+						}
 						if bl, ok := a.(*ast.BasicLit); ok {
 							s, _ := strconv.Unquote(bl.Value)
 							lits = append(lits, s)
 						}
 					}
-					steps = append(steps, fmt.Sprintf("  {| sk := K%s; callees := %s; lits := %s; writes := %s; sf := %s |}",
-						strings.TrimPrefix(kind, "With"), coqStrList(tag), coqStrList(lits), coqStrList(writes), fail))
+					sort.Strings(cs)
+					steps = append(steps, fmt.Sprintf("  {| sk := K%s; callees := %s; lits := %s; consts := %s; writes := %s; sf := %s |}",
+						strings.TrimPrefix(kind, "With"), coqStrList(tag), coqStrList(lits), coqStrList(cs), coqStrList(writes), fail))
 					continue
 				}
 			}
